@@ -616,3 +616,30 @@ Example go_boolean_unaligned_example :
   exists packed, go_decode_boolean [4; 0; 0; 0; 20; 1; 3; 0] = GOk packed /\
                  Some (firstn 16 (bits_of packed)) = dec_boolean_n 16 [4; 0; 0; 0; 20; 1; 3; 0].
 Proof. eexists. split; vm_compute; reflexivity. Qed.
+
+(** * Top-level forms *)
+
+Theorem go_levels_refines_top w b xs :
+  w <= 8 -> dec_hybrid64 w b = Some xs -> go_decode_levels w b = GOk xs /\ dec_hybrid w b = Some xs.
+Proof.
+  intros Hw H. split.
+  - unfold go_decode_levels. destruct (N.ltb_spec 8 w); [lia|]. now apply go_levels_refines.
+  - now apply dec_runs64_sound.
+Qed.
+
+Theorem go_int32_refines_top w b xs :
+  w <= 32 -> dec_hybrid64 w b = Some xs -> go_decode_int32_top w b = GOk xs /\ dec_hybrid w b = Some xs.
+Proof.
+  intros Hw H. split.
+  - unfold go_decode_int32_top. destruct (N.ltb_spec 32 w); [lia|]. now apply go_int32_refines.
+  - now apply dec_runs64_sound.
+Qed.
+
+(** the unrestricted statement does not hold (empty runs) *)
+Definition go_levels_accepts_spec_full : Prop :=
+  forall w b xs, w <= 8 -> dec_hybrid w b = Some xs -> go_decode_levels w b = GOk xs.
+
+Theorem go_levels_accepts_spec_full_refuted : ~ go_levels_accepts_spec_full.
+Proof.
+  intros H. specialize (H 1 [0; 2; 1] [] ltac:(lia) eq_refl). vm_compute in H. discriminate.
+Qed.
